@@ -129,6 +129,8 @@ def _postProcessPredefinedMatrixPhase(therm: GeneralThermodynamics, mobility: np
     # Rows of mobility correspond to the phases that are stable at this point, not to therm.phases
     phases = list(kwargs.get('phases', therm.phases))
     if alpha_phase in phases:
+        # Copy since the input array may be stored in a cache
+        mobility = np.array(mobility)
         alpha_mob = mobility[phases.index(alpha_phase)]
         for i in range(mobility.shape[1]):
             mobility[:,i][mobility[:,i] == -1] = alpha_mob[i]
@@ -140,6 +142,8 @@ def _postProcessMajorityPhase(therm: GeneralThermodynamics, mobility: np.array, 
     with undefined mobility
     '''
     max_idx = np.argmax(phaseFracs)
+    # Copy since the input array may be stored in a cache
+    mobility = np.array(mobility)
     for i in range(mobility.shape[1]):
         mobility[:,i][mobility[:,i] == -1] = mobility[max_idx,i]
     return mobility, phaseFracs
@@ -153,6 +157,8 @@ def _postProcessExcludePhases(therm: GeneralThermodynamics, mobility: np.array, 
     excluded_phases = args[0]
     # Rows of phaseFracs correspond to the phases that are stable at this point, not to therm.phases
     phases = list(kwargs.get('phases', therm.phases))
+    # Copy since the input array may be stored in a cache
+    phaseFracs = np.array(phaseFracs)
     for p in range(len(phases)):
         if phases[p] in excluded_phases:
             phaseFracs[p] = 0
